@@ -17,7 +17,7 @@ use barter_execution::{
         Order, OrderEvent, OrderKey, OrderKind, TimeInForce,
         id::{ClientOrderId, OrderId, StrategyId},
         request::{OrderResponseCancel, RequestCancel, RequestOpen},
-        state::{ActiveOrderState, Cancelled, InactiveOrderState, Open, OpenInFlight, OrderState},
+        state::{ActiveOrderState, CancelInFlight, Cancelled, InactiveOrderState, Open, OpenInFlight, OrderState},
     },
     trade::{AssetFees, Trade, TradeId},
 };
@@ -77,8 +77,7 @@ fn coq_api<E, A, I>(e: &ApiError<A, I>, k: &Keys<E, A, I>) -> String {
 }
 fn coq_order_error<E, A, I>(e: &OrderError<A, I>, k: &Keys<E, A, I>) -> String {
     match e {
-        OrderError::Connectivity(ConnectivityError::Timeout) => "OEConnectivity".into(),
-        OrderError::Connectivity(_) => format!("(OERejected (AEOther {}))", BAD),
+        OrderError::Connectivity(_) => "OEConnectivity".into(),
         OrderError::Rejected(a) => format!("(OERejected {})", coq_api(a, k)),
     }
 }
@@ -259,10 +258,21 @@ fn gen_api(r: &mut Rng, n: &Names) -> UApi {
     }
 }
 fn gen_order_error(r: &mut Rng, n: &Names) -> UOrdErr {
-    if r.chance(1, 4) { OrderError::Connectivity(ConnectivityError::Timeout) } else { OrderError::Rejected(gen_api(r, n)) }
+    if r.chance(1, 4) {
+        OrderError::Connectivity(match r.below(3) {
+            0 => ConnectivityError::Timeout,
+            1 => ConnectivityError::ExchangeOffline(n.exchange(r)),
+            _ => ConnectivityError::Socket("v".into()),
+        })
+    } else {
+        OrderError::Rejected(gen_api(r, n))
+    }
 }
 fn gen_state(r: &mut Rng, n: &Names) -> UState {
-    match r.below(8) {
+    match r.below(9) {
+        8 => OrderState::active(CancelInFlight {
+            order: Some(Open { id: OrderId::new("o"), time_exchange: t0(), filled_quantity: Decimal::ZERO }),
+        }),
         0 => OrderState::active(ActiveOrderState::OpenInFlight(OpenInFlight)),
         1 => OrderState::active(Open { id: OrderId::new("o"), time_exchange: t0(), filled_quantity: Decimal::ZERO }),
         2 | 3 | 4 => OrderState::inactive(gen_order_error(r, n)),
@@ -271,6 +281,83 @@ fn gen_state(r: &mut Rng, n: &Names) -> UState {
         _ => OrderState::expired(),
     }
 }
+/// Deterministic events per map: every event kind tagged with a sibling exchange although it
+/// names own assets / instruments; a snapshot with a balance for EVERY own asset (incl.
+/// settlement-only ones) whose order lists hold orders of ANOTHER own instrument, of a foreign
+/// instrument, with a sibling exchange in the key, and errors naming assets / instruments.
+fn fixed_events(e: ExchangeId, u: &Universe, n: &Names, tag: &mut u64) -> Vec<UEvent> {
+    let (Some(i0), Some(a0)) = (n.own_instruments.first(), n.own_assets.first()) else {
+        return vec![];
+    };
+    let i1 = n.own_instruments.last().unwrap();
+    let a1 = n.own_assets.last().unwrap();
+    let sibling = u.exs.iter().copied().find(|v| *v != e).unwrap_or(e);
+    let foreign_i = u.ine.iter().find(|x| !n.own_instruments.contains(x)).cloned().unwrap_or(i0.clone());
+    let foreign_a = u.ane.iter().find(|x| !n.own_assets.contains(x)).cloned().unwrap_or(a0.clone());
+    let mut nt = || {
+        *tag += 1;
+        *tag
+    };
+    let open = || OrderState::active(Open { id: OrderId::new("o"), time_exchange: t0(), filled_quantity: Decimal::ZERO });
+    let rej = |a: UApi| -> UState { OrderState::inactive(OrderError::Rejected(a)) };
+    let mut v = vec![];
+    // sibling-tagged events that name own things
+    v.push(AccountEvent { exchange: sibling, kind: AccountEventKind::Trade(utrade(i0, nt())) });
+    v.push(AccountEvent { exchange: sibling, kind: AccountEventKind::BalanceSnapshot(Snapshot(ubalance(a1, nt()))) });
+    v.push(AccountEvent { exchange: sibling, kind: AccountEventKind::OrderSnapshot(Snapshot(usnap(ukey(e, i0, nt()), open()))) });
+    // full snapshot, orders grouped under another instrument
+    let balances: Vec<_> = n.own_assets.iter().map(|a| ubalance(a, nt())).collect();
+    v.push(AccountEvent {
+        exchange: e,
+        kind: AccountEventKind::Snapshot(AccountSnapshot {
+            exchange: e,
+            balances,
+            instruments: vec![
+                InstrumentAccountSnapshot {
+                    instrument: i0.clone(),
+                    orders: vec![
+                        usnap(ukey(e, i1, nt()), open()),
+                        usnap(ukey(e, i0, nt()), rej(ApiError::BalanceInsufficient(a1.clone(), "v".into()))),
+                    ],
+                },
+                InstrumentAccountSnapshot {
+                    instrument: i1.clone(),
+                    orders: vec![usnap(ukey(e, i0, nt()), rej(ApiError::InstrumentInvalid(i1.clone(), "v".into())))],
+                },
+            ],
+        }),
+    });
+    // a foreign instrument hidden in an own group / a sibling exchange hidden in a nested key /
+    // a sibling exchange in the snapshot itself / a foreign asset inside a nested error
+    for (k, ex_in, ord_ex, ord_i, st) in [
+        (0, e, e, foreign_i.clone(), open()),
+        (1, e, sibling, i0.clone(), open()),
+        (2, sibling, e, i0.clone(), open()),
+        (3, e, e, i0.clone(), rej(ApiError::AssetInvalid(foreign_a.clone(), "v".into()))),
+    ] {
+        let _ = k;
+        v.push(AccountEvent {
+            exchange: e,
+            kind: AccountEventKind::Snapshot(AccountSnapshot {
+                exchange: ex_in,
+                balances: vec![ubalance(a0, nt())],
+                instruments: vec![InstrumentAccountSnapshot {
+                    instrument: i1.clone(),
+                    orders: vec![usnap(ukey(ord_ex, &ord_i, nt()), st)],
+                }],
+            }),
+        });
+    }
+    v.push(AccountEvent {
+        exchange: e,
+        kind: AccountEventKind::OrderCancelled(OrderResponseCancel {
+            key: ukey(e, i1, nt()),
+            state: Err(OrderError::Rejected(ApiError::AssetInvalid(a1.clone(), "v".into()))),
+        }),
+    });
+    v
+}
+
 fn gen_snap(r: &mut Rng, n: &Names, tag: &mut u64) -> USnap {
     *tag += 1;
     usnap(ukey(n.exchange(r), &n.instrument(r), *tag), gen_state(r, n))
@@ -489,9 +576,12 @@ fn observe_map(
         balances.push((inp, out));
     }
     let mut events = vec![];
-    let n_ev = 6 + r.below(5);
+    let mut evs: Vec<UEvent> = fixed_events(e, u, &names, &mut t);
+    let n_ev = 5 + r.below(4);
     for _ in 0..n_ev {
-        let ev = gen_event(r, &names, &mut t);
+        evs.push(gen_event(r, &names, &mut t));
+    }
+    for ev in evs {
         let inp = coq_event(&ev, &kin);
         let kind_tag = match &ev.kind {
             AccountEventKind::Snapshot(_) => "snapshot",
@@ -760,6 +850,27 @@ fn table(em: &mut Emitter) {
     }
 }
 
+/// Second exhaustive table: derivatives whose settlement asset / quantity-unit asset is the
+/// underlying of NO instrument of their exchange (bnb, usdc are never traded), the same
+/// settlement asset shared by two exchanges (quanto style), contract sizes 1 / 0.001 / 0.01 /
+/// 100, next to a spot instrument on an exchange whose enum order disagrees with its name (Mock).
+fn table2(em: &mut Emitter) {
+    let cat: Vec<Def> = [
+        Blueprint { kind: KindTag::Perpetual, settlement: 6, unit: UnitTag::Asset(7), variant: 1, ..bp(ExchangeId::Kraken, Spelling::Alias, 1, 3) },
+        Blueprint { kind: KindTag::Future, settlement: 6, unit: UnitTag::Contract, variant: 2, ..bp(ExchangeId::BinanceSpot, Spelling::Upper, 0, 2) },
+        Blueprint { kind: KindTag::Option, settlement: 2, unit: UnitTag::Asset(6), variant: 3, ..bp(ExchangeId::Kraken, Spelling::Alias, 0, 2) },
+        Blueprint { kind: KindTag::Perpetual, settlement: 7, unit: UnitTag::Quote, variant: 4, ..bp(ExchangeId::Mock, Spelling::Lower, 0, 2) },
+        bp(ExchangeId::BinanceSpot, Spelling::Upper, 1, 2),
+    ]
+    .iter()
+    .map(build_def)
+    .collect();
+    for mask in 1u32..32 {
+        let ds: Vec<Def> = (0..5).filter(|i| mask & (1 << i) != 0).map(|i| cat[i].clone()).collect();
+        emit_case(em, "table", &ds, 1000 + mask as u64, mask % 2 == 1, &["table_settlement_only_assets".to_string()]);
+    }
+}
+
 fn main() {
     quiet_panics();
     let args = parse_args();
@@ -770,6 +881,7 @@ fn main() {
             let thorough = args.tier == "thorough";
             let (n_wf, n_adv, n_spot) = if thorough { (2500, 1000, 1000) } else { (170, 80, 60) };
             table(&mut em);
+            table2(&mut em);
             let wf = GenOpts { adversarial: false, max_exchanges: 4, max_catalogue: 7, max_len: 9, spot_only: false };
             let adv = GenOpts { adversarial: true, ..wf };
             let spot = GenOpts { spot_only: true, max_exchanges: 3, ..wf };
